@@ -151,16 +151,14 @@ Definition h_pttl (args : list bytes) : hres :=
 Definition h_persist (args : list bytes) : hres :=
   need 1 args (HBody (fun now d => let '(n, d') := api_persist (a0 args) now d in ret [WInt n] d')).
 
-(* RENAME ignores the error and always answers OK.  Same source and destination re-locks
-   the held key. *)
+(* RENAME ignores the error and always answers OK.  (Same source and destination used to re-lock the
+   held key and was kept out of the model; since the repair of the key locks it is an ordinary case.) *)
 Definition h_rename (args : list bytes) : hres :=
   need 2 args (HBody (fun now d =>
-    if bytes_eqb (a0 args) (a1 args) then BUnm
-    else let '(_, d') := api_rename (a0 args) (a1 args) now d in ret [WOK] d')).
+    let '(_, d') := api_rename (a0 args) (a1 args) now d in ret [WOK] d')).
 Definition h_renamenx (args : list bytes) : hres :=
   need 2 args (HBody (fun now d =>
-    if bytes_eqb (a0 args) (a1 args) then BUnm
-    else let '(e, d') := api_renamenx (a0 args) (a1 args) now d in
+    let '(e, d') := api_renamenx (a0 args) (a1 args) now d in
          ret [WInt (if e =? 0 then 1 else 0)] d')).
 Definition h_type (args : list bytes) : hres :=
   need 1 args (HBody (fun now d => let '(t, d') := api_type (a0 args) now d in ret [WStr t] d')).
@@ -607,12 +605,11 @@ Definition h_zadd (args : list bytes) : hres :=
 Definition h_zcard (args : list bytes) : hres :=
   need 1 args (HBody (fun now d => lift (api_zread (a0 args) 0 (fun z => Some (zset_zcard z)) now d) (fun n d' => ret [WInt n] d'))).
 
-(* ZRANK/ZREVRANK key member [WITHSCORES]: the empty member is answered from the skiplist
-   header at a level-dependent point: unmodelled *)
+(* ZRANK/ZREVRANK key member [WITHSCORES].  (The empty member used to be answered from the skiplist
+   header at a level-dependent point and was kept out of the model; repaired, it is an ordinary member.) *)
 Definition h_zrank (desc : bool) (args : list bytes) : hres :=
   need 2 args (HBody (fun now d =>
     let mem := a1 args in
-    match mem with [] => BUnm | _ =>
     if opt o_WITHSCORES args >? 1 then
       lift (api_zread (a0 args) None (fun z => Some (zset_rank mem desc z)) now d)
            (fun r d' => match r with
@@ -626,8 +623,7 @@ Definition h_zrank (desc : bool) (args : list bytes) : hres :=
            (fun r d' => match r with
                         | Some rk => ret [WInt rk] d'
                         | None => if desc then ret [WInt 0] d' else ret [WNullBulk] d'
-                        end)
-    end)).
+                        end))).
 Definition h_zscore (args : list bytes) : hres :=
   need 2 args (HBody (fun now d =>
     (* a missing key returns (0, nil): the score 0 is written *)
